@@ -165,11 +165,191 @@ theorem headerText_eq_lines (cols contigs : List String) :
   rw [e1, e2, e3]
   simp [List.flatMap_cons, List.flatMap_append, List.flatMap_map, contigLine, chromLine]
 
+/-! ## the header parser on the header lines -/
+
+theorem joinTab_cons_cons (x y : List Nat) (xs : List (List Nat)) : joinTab (x :: y :: xs) = x ++ 9 :: joinTab (y :: xs) := rfl
+
+theorem splitBytes_joinTab (ls : List (List Nat)) (hne : ls ≠ []) (h : ∀ l ∈ ls, 9 ∉ l) :
+    splitBytes 9 (joinTab ls) = ls := by
+  induction ls with
+  | nil => exact absurd rfl hne
+  | cons x xs ih =>
+    cases xs with
+    | nil => exact splitBytes_single 9 x (h x (by simp))
+    | cons y ys =>
+      rw [joinTab_cons_cons, splitBytes_append_sep 9 x _ (h x (by simp)), ih (by simp) (fun l hl => h l (by simp [hl]))]
+
+theorem mapM_asciiString_strBytes (cols : List String) (h : ∀ c ∈ cols, asciiString (strBytes c) = some c) :
+    (cols.map strBytes).mapM asciiString = some cols := by
+  induction cols with
+  | nil => rfl
+  | cons c cs ih =>
+    simp [List.mapM_cons, h c (by simp), ih (fun c' hc' => h c' (by simp [hc']))]
+
+theorem go_contigLine (c : String) (hc : WfContig c) (fuel : Nat) (ls : List (List Nat)) (acc strings : List String) :
+    parseVcfHeaderLines.go (fuel + 1) (contigLine c :: ls) acc strings =
+      parseVcfHeaderLines.go fuel ls (acc ++ [c]) strings := by
+  have hno : ∀ b ∈ strBytes c, b ≠ 61 ∧ b ≠ 44 ∧ b ≠ 62 := by
+    intro b hb
+    have := wfContig_bytes hc hb
+    omega
+  have e0 : strBytes "##contig=<ID=" = [35, 35, 99, 111, 110, 116, 105, 103, 61, 60, 73, 68, 61] := by decide
+  have h1 : (strBytes "##").isPrefixOf (contigLine c) = true := by
+    have : strBytes "##" = [35, 35] := by decide
+    simp [contigLine, e0, this]
+  have h2 : hasInfix (strBytes "IDX=") (contigLine c) = false := by
+    have e : strBytes "IDX=" = [73, 68, 88, 61] := by decide
+    have ht : hasInfix [73, 68, 88, 61] (strBytes c ++ [62]) = false := by
+      apply hasInfix_false_of_not_mem _ _ 61 (by simp)
+      intro hm
+      rcases List.mem_append.1 hm with hm | hm
+      · exact (hno _ hm).1 rfl
+      · simp at hm
+    rw [e, contigLine, e0]
+    simp [hasInfix, ht, List.isPrefixOf_cons_cons]
+  have h3 : metaId "contig" (contigLine c) = some (strBytes c) := by
+    have e : strBytes ("##" ++ "contig" ++ "=<ID=") = [35, 35, 99, 111, 110, 116, 105, 103, 61, 60, 73, 68, 61] := by decide
+    unfold metaId
+    simp only [e, contigLine, e0]
+    simp
+    rw [List.takeWhile_append_of_pos (by
+      intro b hb
+      have := hno b hb
+      simp [this.2.1, this.2.2])]
+    simp
+  rw [parseVcfHeaderLines.go.eq_3]
+  simp only [h1, h2, h3, wfContig_ascii hc]
+  simp
+
+
+theorem go_contigLines (cs : List String) (hcs : ∀ c ∈ cs, WfContig c) (f : Nat) (tail : List (List Nat))
+    (acc strings : List String) :
+    parseVcfHeaderLines.go (cs.length + f) (cs.map contigLine ++ tail) acc strings =
+      parseVcfHeaderLines.go f tail (acc ++ cs) strings := by
+  induction cs generalizing acc with
+  | nil => simp
+  | cons c cs ih =>
+    have e : (c :: cs).length + f = (cs.length + f) + 1 := by simp; omega
+    rw [e, List.map_cons, List.cons_append, go_contigLine c (hcs c (by simp)),
+      ih (fun c' hc' => hcs c' (by simp [hc']))]
+    simp
+
+theorem go_formatLine (fuel : Nat) (ls : List (List Nat)) (contigs : List String) :
+    parseVcfHeaderLines.go (fuel + 1) (formatLine :: ls) contigs ["PASS"] =
+      parseVcfHeaderLines.go fuel ls contigs ["PASS", "GT"] := by
+  have h1 : (strBytes "##").isPrefixOf formatLine = true := by decide
+  have h2 : hasInfix (strBytes "IDX=") formatLine = false := by decide
+  have h3 : metaId "contig" formatLine = none := by decide
+  have h4 : metaId "FILTER" formatLine = none := by decide
+  have h5 : metaId "INFO" formatLine = none := by decide
+  have h6 : metaId "FORMAT" formatLine = some [71, 84] := by decide
+  have h7 : asciiString [71, 84] = some "GT" := by decide
+  rw [parseVcfHeaderLines.go.eq_3]
+  simp only [h1, h2, h3, h4, h5, h6]
+  simp [h7]
+
+
+theorem go_chromLine (cols : List String) (hc : cols ≠ []) (hcw : ∀ c ∈ cols, WfName c) (fuel : Nat)
+    (ls : List (List Nat)) (contigs strings : List String) :
+    parseVcfHeaderLines.go (fuel + 1) (chromLine cols :: ls) contigs strings =
+      some (⟨cols, contigs, strings⟩, ls) := by
+  have e0 : chromLinePrefix = 35 :: 67 :: chromLinePrefix.drop 2 := by decide
+  have h1 : (strBytes "##").isPrefixOf (chromLine cols) = false := by
+    have : strBytes "##" = [35, 35] := by decide
+    rw [this, chromLine, e0]
+    simp [List.isPrefixOf_cons_cons]
+  have h2 : chromLinePrefix.isPrefixOf (chromLine cols) = true := by
+    simp [chromLine]
+  have h3 : (chromLine cols).drop chromLinePrefix.length = joinTab (cols.map strBytes) := by
+    simp [chromLine]
+  have h4 : splitBytes 9 (joinTab (cols.map strBytes)) = cols.map strBytes := by
+    apply splitBytes_joinTab _ (by simpa using hc)
+    intro l hl
+    obtain ⟨c, hc', rfl⟩ := List.mem_map.1 hl
+    intro h9
+    exact (wfName_bytes (hcw c hc') h9).1 rfl
+  have h5 : (cols.map strBytes).mapM asciiString = some cols :=
+    mapM_asciiString_strBytes cols (fun c hc' => wfName_ascii (hcw c hc'))
+  have h6 : (cols.any fun x => x == "") = false := by
+    simp only [List.any_eq_false, beq_iff_eq]
+    intro c hc' e
+    exact (hcw c hc').1 e
+  rw [parseVcfHeaderLines.go.eq_3]
+  simp only [h1, h2, h3, h4, h5, h6]
+  simp
+
+theorem parseVcfHeaderLines_headerLines (cols contigs : List String) (hc : cols ≠ []) (hcw : ∀ c ∈ cols, WfName c)
+    (hg : ∀ c ∈ contigs, WfContig c) (rest : List (List Nat)) :
+    parseVcfHeaderLines (headerLines cols contigs ++ rest) = some (⟨cols, contigs, ["PASS", "GT"]⟩, rest) := by
+  have h0 : (strBytes "##fileformat=VCFv4.").isPrefixOf (strBytes "##fileformat=VCFv4.3") = true := by decide
+  have hl : (contigs.map contigLine ++ formatLine :: chromLine cols :: rest).length + 1 =
+      contigs.length + (rest.length + 1 + 1 + 1) := by
+    simp; omega
+  unfold parseVcfHeaderLines headerLines
+  simp only [List.cons_append, h0, List.append_assoc, List.nil_append]
+  rw [hl, go_contigLines contigs hg]
+  rw [go_formatLine, go_chromLine cols hc hcw]
+  simp
+
+theorem mem_joinTab {ls : List (List Nat)} {b : Nat} (h : b ∈ joinTab ls) : b = 9 ∨ ∃ l ∈ ls, b ∈ l := by
+  induction ls with
+  | nil => simp [joinTab] at h
+  | cons x xs ih =>
+    cases xs with
+    | nil => exact .inr ⟨x, by simp, by simpa [joinTab] using h⟩
+    | cons y ys =>
+      rw [joinTab_cons_cons] at h
+      rcases List.mem_append.1 h with h | h
+      · exact .inr ⟨x, by simp, h⟩
+      · rcases List.mem_cons.1 h with h | h
+        · exact .inl h
+        · rcases ih h with h | ⟨l, hl, hb⟩
+          · exact .inl h
+          · exact .inr ⟨l, by simp [hl], hb⟩
+
+/-- no header line contains a newline or a carriage return -/
+theorem headerLines_bytes (cols contigs : List String) (hcw : ∀ c ∈ cols, WfName c)
+    (hg : ∀ c ∈ contigs, WfContig c) : ∀ l ∈ headerLines cols contigs, 10 ∉ l ∧ 13 ∉ l := by
+  intro l hl
+  simp only [headerLines, List.mem_cons, List.mem_append, List.mem_map, List.not_mem_nil, or_false] at hl
+  rcases hl with rfl | ⟨c, hc, rfl⟩ | rfl | rfl
+  · decide
+  · have e0 : strBytes "##contig=<ID=" = [35, 35, 99, 111, 110, 116, 105, 103, 61, 60, 73, 68, 61] := by decide
+    have hb : ∀ b ∈ contigLine c, b ≠ 10 ∧ b ≠ 13 := by
+      intro b hb
+      simp only [contigLine, List.mem_append, List.mem_singleton] at hb
+      rcases hb with (hb | hb) | hb
+      · rw [e0] at hb; simp at hb; omega
+      · have := wfContig_bytes (hg c hc) hb; omega
+      · omega
+    exact ⟨fun h => (hb _ h).1 rfl, fun h => (hb _ h).2 rfl⟩
+  · decide
+  · have hb : ∀ b ∈ chromLine cols, b ≠ 10 ∧ b ≠ 13 := by
+      intro b hb
+      simp only [chromLine, List.mem_append] at hb
+      rcases hb with hb | hb
+      · revert b; decide
+      · rcases mem_joinTab hb with rfl | ⟨l, hl, hbl⟩
+        · omega
+        · obtain ⟨c, hc, rfl⟩ := List.mem_map.1 hl
+          have := wfName_bytes (hcw c hc) hbl
+          exact ⟨this.2.1, this.2.2⟩
+    exact ⟨fun h => (hb _ h).1 rfl, fun h => (hb _ h).2 rfl⟩
+
+theorem splitLines_headerText (cols contigs : List String) (hcw : ∀ c ∈ cols, WfName c)
+    (hg : ∀ c ∈ contigs, WfContig c) (rest : List Nat) :
+    splitLines (headerText cols contigs ++ rest) = headerLines cols contigs ++ splitLines rest := by
+  rw [headerText_eq_lines]
+  exact splitLines_flatMap _ (fun l hl => (headerLines_bytes cols contigs hcw hg l hl).1) rest
+
 /-- `headerText` ends with a newline, so its lines are exactly its `\n`-terminated lines and whatever follows starts a new line. -/
 theorem parseVcfHeaderLines_headerText (cols contigs : List String) (hc : cols ≠ []) (hcw : ∀ c ∈ cols, WfName c)
     (hg : ∀ c ∈ contigs, WfContig c) (rest : List (List Nat)) :
     parseVcfHeaderLines (splitLines (headerText cols contigs) ++ rest) =
       some (⟨cols, contigs, ["PASS", "GT"]⟩, rest) := by
-  sorry
+  have h := splitLines_headerText cols contigs hcw hg []
+  rw [List.append_nil, splitLines_nil, List.append_nil] at h
+  rw [h]
+  exact parseVcfHeaderLines_headerLines cols contigs hc hcw hg rest
 
 end Sfs
